@@ -566,6 +566,8 @@ def form_specs(draw, profile=None):
     if pr.get("tp"):
         # tensor-product factorised elements (the only ones sum factorisation accepts), as in test_tensor_product.py
         pool = [("tpQ", ["tp", d, []]) for d in range(1, maxdeg + 1)] + [("tpvecQ", ["tp", d, [gdim]]) for d in (1, 2)]
+        # the same degree with another 1D basis (Lagrange variant): factor tables must not be shared between variants
+        pool += [("tpQ-equispaced", ["tp", d, [], "equispaced"]) for d in range(2, maxdeg + 1)]
     arity = draw(st.sampled_from(pr["arities"]))
     nint = draw(st.integers(1, pr["max_integrals"]))
     int_measures = [draw(st.sampled_from(measures)) for _ in range(nint)]
